@@ -495,6 +495,8 @@ def sym_exp(x):
     eng.assume(t > 0, silent=True)
     eng.assume(LN(t) == x.e, silent=True)
     eng.assume(z3.Implies(x.e == 0, t == 1), silent=True)
+    eng.assume(z3.Implies(x.e < 0, t < 1), silent=True)
+    eng.assume(z3.Implies(x.e > 0, t > 1), silent=True)
     return SymReal(t)
 
 
